@@ -338,3 +338,109 @@ Example reason_change_refuted :
   done = true /\ su_fin (co_sub o) = FtEnd /\ n_canary_svc (apply_writes f31_net (co_writes o)) = Some "v2" /\
   n_stable_sel (apply_writes f31_net (co_writes o)) = Some "v1".
 Proof. vm_compute. repeat split; reflexivity. Qed.
+
+(* ---------- C10 with traffic routing: the workload is touched only after traffic is back on stable ---------- *)
+(* finalise (the BatchRelease tasks) changes the BatchRelease only at ResumeWorkload / ReleaseWorkloadControl *)
+Lemma finalise_br_change sp u w br r wr d u' br' : finalise sp u w br r wr = (d, u', br') -> br' <> br ->
+  current r (su_fin u) = FtResume \/ current r (su_fin u) = FtRelease.
+Proof.
+  intros H Hne. unfold current. unfold finalise in H.
+  destruct (su_fin u) eqn:E; destruct r; cbn in H |- *; auto; exfalso; apply Hne;
+  rewrite ?E in H; cbn in H;
+  repeat match type of H with
+         | context [match ?c with Some _ => _ | None => _ end] => destruct c
+         | context [if ?c then _ else _] => destruct c end;
+  injection H as _ _ <-; reflexivity.
+Qed.
+
+Lemma rollback_passes_route_first : passed FrRollback FtRouteStable FtResume = true /\ passed FrRollback FtRouteStable FtRelease = true.
+Proof. split; vm_compute; reflexivity. Qed.
+Lemma rollback_starts_with_route : next_task FrRollback FtNone = FtRouteStable. Proof. reflexivity. Qed.
+
+(* rollback: a reconcile of the cancellation sequence that patches or deletes the BatchRelease (resume the workload, hand it
+   back to its native controller -- this is what removes the new-revision pods) finds the canary route already gone, and
+   writes nothing to the network itself.  finv is the invariant every cancellation history keeps (finalising_history_safe) *)
+Theorem rollback_touches_workload_after_traffic_back t u w br wr n g done o :
+  finalise_tr t u w br FrRollback wr n g = (done, o) -> finv FrRollback u n -> co_br o <> br ->
+  n_route n = RNone /\ co_writes o = [].
+Proof.
+  intros H Hinv Hbr. unfold finalise_tr in H.
+  destruct (ftask_eqb (su_fin u) FtEnd); [injection H as _ <-; cbn in Hbr; congruence|].
+  set (u1 := match su_fin u with FtNone => _ | _ => u end) in H.
+  assert (Hc : su_fin u1 = current FrRollback (su_fin u))
+    by (subst u1; unfold current; destruct (su_fin u) eqn:E; cbn; rewrite ?E; reflexivity).
+  assert (Htr : forall x, (if tr_err x then (false, {| co_sub := u1; co_br := br; co_requeue := false; co_writes := tr_writes x; co_graces := tr_graces x; co_err := true |})
+       else if negb (tr_ok x) then (false, {| co_sub := u1; co_br := br; co_requeue := false; co_writes := tr_writes x; co_graces := tr_graces x; co_err := false |})
+       else (ftask_eqb (next_task FrRollback (su_fin u)) FtEnd,
+             {| co_sub := upd_sub u1 (su_idx u1) (su_next u1) (su_state u1) (next_task FrRollback (su_fin u)) false; co_br := br; co_requeue := false;
+                co_writes := tr_writes x; co_graces := tr_graces x; co_err := false |})) = (done, o) -> False).
+  { intros x E. destruct (tr_err x); [|destruct (negb (tr_ok x))]; injection E as _ <-; apply Hbr; reflexivity. }
+  destruct (su_fin u1) eqn:E1; try (exfalso; eapply Htr; exact H).
+  all: destruct (finalise (ts_sp t) u w br FrRollback wr) as [[d' u'] br'] eqn:Hf; injection H as _ <-; cbn [co_br co_writes] in *;
+       destruct (finalise_br_change _ _ _ _ _ _ _ _ _ Hf Hbr) as [Hx|Hx]; rewrite <- Hc in Hx; try discriminate.
+  - (* ResumeWorkload *)
+    split; [|reflexivity]. apply (fi_gateway _ _ _ Hinv).
+    assert (Hu : su_fin u = FtResume).
+    { unfold current in Hc. destruct (su_fin u) eqn:E; try congruence. rewrite rollback_starts_with_route in Hc. discriminate. }
+    rewrite Hu. apply rollback_passes_route_first.
+  - split; [|reflexivity]. apply (fi_gateway _ _ _ Hinv).
+    assert (Hu : su_fin u = FtRelease).
+    { unfold current in Hc. destruct (su_fin u) eqn:E; try congruence. rewrite rollback_starts_with_route in Hc. discriminate. }
+    rewrite Hu. apply rollback_passes_route_first.
+Qed.
+
+Lemma apply_writes_app n ws1 ws2 : apply_writes n (ws1 ++ ws2) = apply_writes (apply_writes n ws1) ws2.
+Proof. unfold apply_writes. apply fold_left_app. Qed.
+
+(* supersession (a newer revision arrives while traffic routing is configured): the reset removes the BatchRelease only in
+   a reconcile after whose writes the canary route is gone.  The hypothesis is the reset sequence's own invariant: its
+   cursor stands behind RestoreGateway only once that task completed *)
+Theorem supersession_removes_pods_after_traffic_back t u br n g done c :
+  reset_tr t u br n g = (done, c) -> ts_refs t = true ->
+  (su_fin u = FtRelease \/ su_fin u = FtRemoveCanarySvc -> n_route n = RNone) ->
+  co_br c <> br -> n_route (apply_writes n (co_writes c)) = RNone.
+Proof.
+  intros H Hr Hinv Hbr. unfold reset_tr in H.
+  assert (Hstage3 : forall (u0 : sub) (b0 : brw) ws g0, n_route (apply_writes n ws) = RNone ->
+     (let x := remove_canary_service (mk_ctx t u0) (apply_writes n ws) g0 in
+      if tr_err x then (false, {| co_sub := touch u0 x; co_br := b0; co_requeue := false; co_writes := ws ++ tr_writes x; co_graces := tr_graces x; co_err := true |})
+      else (true, {| co_sub := u0; co_br := b0; co_requeue := false; co_writes := ws ++ tr_writes x; co_graces := tr_graces x; co_err := false |})) = (done, c) ->
+     n_route (apply_writes n (co_writes c)) = RNone).
+  { intros u0 b0 ws g0 Hn E. cbv zeta in E.
+    match type of E with context [if ?b then _ else _] => destruct b end; injection E as _ <-; cbn [co_writes]; rewrite apply_writes_app;
+    destruct (remove_canary_writes (mk_ctx t u0) (apply_writes n ws) g0) as [-> | ->]; cbn; exact Hn. }
+  assert (Hstage2 : forall (u0 : sub) ws g0, n_route (apply_writes n ws) = RNone ->
+     (let '(retry, br') := remove_br br in
+      if retry then (false, {| co_sub := u0; co_br := br'; co_requeue := false; co_writes := ws; co_graces := g0; co_err := false |})
+      else let x := remove_canary_service (mk_ctx t (upd_sub u0 (su_idx u0) (su_next u0) (su_state u0) FtRemoveCanarySvc false)) (apply_writes n ws) g0 in
+           if tr_err x then (false, {| co_sub := touch (upd_sub u0 (su_idx u0) (su_next u0) (su_state u0) FtRemoveCanarySvc false) x; co_br := br'; co_requeue := false; co_writes := ws ++ tr_writes x; co_graces := tr_graces x; co_err := true |})
+           else (true, {| co_sub := upd_sub u0 (su_idx u0) (su_next u0) (su_state u0) FtRemoveCanarySvc false; co_br := br'; co_requeue := false; co_writes := ws ++ tr_writes x; co_graces := tr_graces x; co_err := false |})) = (done, c) ->
+     n_route (apply_writes n (co_writes c)) = RNone).
+  { intros u0 ws g0 Hn E. destruct (remove_br br) as [retry br'].
+    destruct retry; [injection E as _ <-; cbn [co_writes]; exact Hn|].
+    cbv zeta in E. match type of E with context [if ?b then _ else _] => destruct b end; injection E as _ <-; cbn [co_writes]; rewrite apply_writes_app;
+    match goal with |- context [remove_canary_service ?x ?m ?gg] => destruct (remove_canary_writes x m gg) as [-> | ->] end; cbn; exact Hn. }
+  assert (Hstage1 : forall (u0 : sub),
+     (let x := restore_gateway (mk_ctx t u0) n g in
+      if tr_err x || negb (tr_ok x) then (false, {| co_sub := touch u0 x; co_br := br; co_requeue := false; co_writes := tr_writes x; co_graces := tr_graces x; co_err := tr_err x |})
+      else (let '(retry, br') := remove_br br in
+      if retry then (false, {| co_sub := upd_sub u0 (su_idx u0) (su_next u0) (su_state u0) FtRelease false; co_br := br'; co_requeue := false; co_writes := tr_writes x; co_graces := tr_graces x; co_err := false |})
+      else let y := remove_canary_service (mk_ctx t (upd_sub (upd_sub u0 (su_idx u0) (su_next u0) (su_state u0) FtRelease false) (su_idx u0) (su_next u0) (su_state u0) FtRemoveCanarySvc false)) (apply_writes n (tr_writes x)) (tr_graces x) in
+           if tr_err y then (false, {| co_sub := touch (upd_sub (upd_sub u0 (su_idx u0) (su_next u0) (su_state u0) FtRelease false) (su_idx u0) (su_next u0) (su_state u0) FtRemoveCanarySvc false) y; co_br := br'; co_requeue := false; co_writes := tr_writes x ++ tr_writes y; co_graces := tr_graces y; co_err := true |})
+           else (true, {| co_sub := upd_sub (upd_sub u0 (su_idx u0) (su_next u0) (su_state u0) FtRelease false) (su_idx u0) (su_next u0) (su_state u0) FtRemoveCanarySvc false; co_br := br'; co_requeue := false; co_writes := tr_writes x ++ tr_writes y; co_graces := tr_graces y; co_err := false |}))) = (done, c) ->
+     n_route (apply_writes n (co_writes c)) = RNone).
+  { intros u0 E. cbv zeta in E.
+    destruct (tr_err (restore_gateway (mk_ctx t u0) n g) || negb (tr_ok (restore_gateway (mk_ctx t u0) n g))) eqn:Eg.
+    { injection E as _ <-. exfalso. apply Hbr. reflexivity. }
+    apply Bool.orb_false_iff in Eg as [_ Eok]. apply Bool.negb_false_iff in Eok.
+    pose proof (restore_gateway_ok_effect (mk_ctx t u0) n g Hr Eok) as Hn.
+    destruct (remove_br br) as [retry br'].
+    destruct retry; [injection E as _ <-; cbn [co_writes]; exact Hn|].
+    match type of E with context [if ?b then _ else _] => destruct b end; injection E as _ <-; cbn [co_writes]; rewrite apply_writes_app;
+    match goal with |- context [remove_canary_service ?x ?m ?gg] => destruct (remove_canary_writes x m gg) as [-> | ->] end; cbn; exact Hn. }
+  destruct (su_fin u) eqn:Ef.
+  all: try (apply (Hstage1 _ H)).
+  - (* cursor at RemoveCanarySvc: the BatchRelease is not touched *)
+    exfalso. cbv zeta in H. match type of H with context [if ?b then _ else _] => destruct b end; injection H as _ <-; apply Hbr; reflexivity.
+  - (* cursor at Release *) apply (Hstage2 u [] g); [cbn; apply Hinv; auto|exact H].
+Qed.
